@@ -12,6 +12,8 @@ open Emboss.Lr1
 #print axioms C08_terminates_accepting
 #print axioms C08_gen_valid
 #print axioms C08_gen_correct
+#print axioms C08_gen_fuel_sufficient
+#print axioms C08_gen_total
 #print axioms C08_gen_ambiguous_conflicts
 #print axioms C08_gen_closure
 #print axioms C08_gen_goto
